@@ -11,8 +11,12 @@ package bigxy
 //@   ensures res == (x > 0.0 ? 1 : (x < 0.0 ? 0 - 1 : 0))
 //@   modifies nothing
 
+// maxdegree 2: the filter multiplies differences of ordinates pairwise and nothing of higher degree, so within the
+// property's domain (ordinates zero or of magnitude in [1e-100, 1e100]) no product underflows or overflows and
+// the sign tests on the float64 values read as sign tests on the reals
 //@ func orientationIndexFilter
 //@   floats real
+//@   maxdegree 2
 //@   requires len(vectorOrigin) >= 2 && len(vectorEnd) >= 2 && len(point) >= 2
 //@   ensures res == 2 || res == sgnOf(cross2(vectorOrigin[0], vectorOrigin[1], vectorEnd[0], vectorEnd[1], point[0], point[1]))
 //@   modifies nothing
